@@ -5,6 +5,7 @@ From Coq Require Import ZArith List Bool.
 From Galene Require Import Lib.Word Generated.Consts Model.PacketMap Model.PacketMapL1 Model.Cache Model.Forward.
 From Galene Require Import Proofs.PacketMapGhost Proofs.PacketMapView Proofs.PacketMapSpec.
 From Galene Require Import Proofs.CacheSound Proofs.ForwardProps Proofs.ReverseStable.
+From Galene Require Import Proofs.RewriteMarker Proofs.ForwardNack Proofs.ForwardNackEx.
 Import ListNotations.
 Open Scope Z_scope.
 
@@ -121,3 +122,158 @@ Theorem C03_retransmission_keeps_map : forall m o s p pid,
   pm_reverse m o = (true, s, p) -> snd (pm_map m s pid) = m.
 Proof. exact retransmission_keeps_map. Qed.
 Print Assumptions C03_retransmission_keeps_map.
+
+(* ---- end to end, over histories of the composed forwarding model ---- *)
+(* Model/Forward.v: layer selection, packet map, RewritePacket and the
+   publisher's cache, driven by a history of operations from [f_init cap].
+
+   Hypotheses, and why the code guarantees them:
+   - [Forall wf_fop ops]: sequence numbers are uint16; the flags recorded with
+     a stored packet are the flags of that packet; Cache.Store receives
+     between 1 and BufSize bytes; the cache is resized to >= 1 entries.
+   - [bytes_ok buf], [hdr_seq buf = f_seqno f]: a packet is bytes, and the
+     flags' sequence number is the one in its header.
+   - [only_store ops s f buf]: whatever the publisher stored under the source
+     number s is this packet (duplicates are byte-identical).  rtpUpTrack
+     stores a packet and then hands the same bytes to the writers; without
+     this the cache could hold two different packets under one 16-bit number
+     and Get returns the first slot that matches.
+   - [insync_all ...] and the last hypothesis ("recently"): after the original
+     transmission no packet arrives more than 8192 numbers away from the
+     number expected next (the map does not re-synchronise; [track] computes
+     that number from the source numbers of the Writes alone), and when the
+     NACK arrives the packet is at most 8192 numbers behind it.  Both are
+     necessary: see C03_resync_refuted below.
+
+   Conclusion: gotNACK for the outgoing number of that transmission (bytes
+   2-3 of what was sent) leaves the packet map unchanged and answers nothing,
+   or exactly one result r of Write on the SAME source packet (Reverse names
+   f_seqno f, the cache returns buf, the recorded flags are f); r is never a
+   panic, and if r is a packet d' it has the length of d and equals d at
+   every byte except possibly bit 7 of byte 1 (the marker, recomputed from the
+   current spatial layer: finding F13, C03_marker_refuted) - so the same
+   outgoing number, picture id and payload - and d' = d outright when Write
+   selects the same spatial layer as at the original transmission. *)
+Theorem C03_same_or_nothing : forall vp8 cap pre f buf post d,
+  let ops := pre ++ OWrite f buf :: post in
+  let st_i := frun vp8 (f_init cap) pre in
+  let st := frun vp8 (f_init cap) ops in
+  let n_i := track None pre in
+  let R := src n_i (Layers.f_seqno f) in
+  Forall wf_fop ops -> bytes_ok buf -> hdr_seq buf = Layers.f_seqno f ->
+  only_store ops (Layers.f_seqno f) f buf ->
+  snd (fst (write vp8 st_i f buf)) = WSent d ->
+  insync_all (nxt n_i (Layers.f_seqno f)) post ->
+  match track None ops with Some N => N - R <= 8192 | None => False end ->
+  forall st' rs stop, nack1 vp8 st (hdr_seq d) = (st', rs, stop) ->
+    fs_map st' = fs_map st /\
+    (rs = [] \/
+     exists r p n,
+       rs = [r] /\
+       pm_reverse (fs_map st) (hdr_seq d) = (true, Layers.f_seqno f, p) /\
+       get (fs_cache st) (Layers.f_seqno f) = (n, buf) /\
+       find_flags (Layers.f_seqno f) (fs_flags st) = Some f /\
+       r = snd (fst (write vp8 st f buf)) /\
+       r <> WPanic /\
+       forall d', r = WSent d' ->
+         agree_but_marker d d' /\
+         (Layers.sid (fst (fst (write_decision st f))) =
+          Layers.sid (fst (fst (write_decision st_i f))) -> d' = d)).
+Proof. exact nack_same_or_nothing. Qed.
+Print Assumptions C03_same_or_nothing.
+
+(* A packet that Write withheld (the layer part asked for it and Drop
+   succeeded) is never sent in answer to a NACK, under the same window
+   hypotheses: whatever number is requested, if Reverse names that packet's
+   source number, gotNACK sends nothing. *)
+Theorem C03_never_withheld : forall vp8 cap pre f buf post,
+  let ops := pre ++ OWrite f buf :: post in
+  let st_i := frun vp8 (f_init cap) pre in
+  let st := frun vp8 (f_init cap) ops in
+  let n_i := track None pre in
+  let R := src n_i (Layers.f_seqno f) in
+  Forall wf_fop ops ->
+  snd (fst (write_decision st_i f)) = true ->
+  fst (pm_drop (fs_map st_i) (Layers.f_seqno f) (Layers.f_pid f)) = true ->
+  insync_all (nxt n_i (Layers.f_seqno f)) post ->
+  match track None ops with Some N => N - R <= 8192 | None => False end ->
+  snd (fst (write vp8 st_i f buf)) = WNone /\
+  forall o st' rs stop, nack1 vp8 st o = (st', rs, stop) ->
+    forall p, pm_reverse (fs_map st) o = (true, Layers.f_seqno f, p) -> rs = [] \/ rs = [WNone].
+Proof. exact nack_never_withheld. Qed.
+Print Assumptions C03_never_withheld.
+
+(* non-vacuity (VP8, 15-bit picture ids; Proofs/ForwardNackEx.v): the rate
+   estimate is far above the allowed maximum; packet 100 (temporal layer 0) is
+   forwarded; packet 101 (temporal layer 1) is withheld; packet 102 is
+   forwarded under number 101 with picture id 12 - 1 = 11 and the marker set;
+   103 is forwarded as 102; then NACKs for 101, 100, 103 and 99: the first two
+   are answered with the identical bytes, the other two (103: not sent yet;
+   99: never sent) with nothing. *)
+Example C03_example_history :
+  fouts true (f_init 8) (ex_ops ++ [ONack [101; 100; 103; 99]]) =
+  [RNone; RNone; RWrite (WSent ex_sent100) 0 false;
+   RNone; RWrite WNone 16777216 false;
+   RNone; RWrite (WSent ex_sent101) 16777216 false;
+   RLayer 16777216; RNone;
+   RWrite (WSent [128; 224; 0; 102; 0;0;0;1; 0;0;18;52; 128; 128; 128; 12; 7;7;103]) 16777216 false;
+   RNack [WSent ex_sent101; WSent ex_sent100] 16777216].
+Proof. vm_compute. reflexivity. Qed.
+
+(* and the hypotheses of C03_same_or_nothing hold of that history, for the
+   transmission of packet 102, whose NACK is answered with the same bytes *)
+Example C03_example_hypotheses :
+  Forall wf_fop ex_ops /\ bytes_ok (ex_buf 102 12) /\ hdr_seq (ex_buf 102 12) = 102 /\
+  only_store ex_ops 102 ex_f102 (ex_buf 102 12) /\
+  snd (fst (write true (frun true (f_init 8) ex_pre) ex_f102 (ex_buf 102 12))) = WSent ex_sent101 /\
+  insync_all (nxt (track None ex_pre) 102) ex_post /\
+  track None ex_ops = Some 104 /\ src (track None ex_pre) 102 = 102 /\
+  nack1 true (frun true (f_init 8) ex_ops) (hdr_seq ex_sent101)
+    = (frun true (f_init 8) ex_ops, [WSent ex_sent101], false).
+Proof. exact example_hypotheses. Qed.
+
+(* The hypothesis that the map does not re-synchronise is necessary.  Full
+   statements without it: *)
+Definition C03_same_without_sync_statement : Prop :=
+  forall vp8 cap pre f buf post d,
+  let ops := pre ++ OWrite f buf :: post in
+  let st_i := frun vp8 (f_init cap) pre in
+  let st := frun vp8 (f_init cap) ops in
+  let R := src (track None pre) (Layers.f_seqno f) in
+  Forall wf_fop ops -> bytes_ok buf -> hdr_seq buf = Layers.f_seqno f ->
+  only_store ops (Layers.f_seqno f) f buf ->
+  snd (fst (write vp8 st_i f buf)) = WSent d ->
+  match track None ops with Some N => N - R <= 8192 | None => False end ->
+  forall st' rs stop, nack1 vp8 st (hdr_seq d) = (st', rs, stop) ->
+  forall d', rs = [WSent d'] -> agree_but_marker d d'.
+
+Definition C03_withheld_without_sync_statement : Prop :=
+  forall vp8 cap pre f buf post,
+  let ops := pre ++ OWrite f buf :: post in
+  let st_i := frun vp8 (f_init cap) pre in
+  let st := frun vp8 (f_init cap) ops in
+  let R := src (track None pre) (Layers.f_seqno f) in
+  Forall wf_fop ops ->
+  snd (fst (write_decision st_i f)) = true ->
+  fst (pm_drop (fs_map st_i) (Layers.f_seqno f) (Layers.f_pid f)) = true ->
+  match track None ops with Some N => N - R <= 8192 | None => False end ->
+  forall o st' rs stop, nack1 vp8 st o = (st', rs, stop) ->
+    forall p, pm_reverse (fs_map st) o = (true, Layers.f_seqno f, p) -> rs = [] \/ rs = [WNone].
+
+(* Refuted by the history [rs_ops] of Proofs/ForwardNackEx.v: as in the
+   example, 100 forwarded, 101 withheld, 102 forwarded as 101; then the
+   publisher's numbers jump to 30000 and back to 103.  Each jump is more than
+   8192, so Map restarts the numbering twice and forgets that 101 was withheld
+   and that 102 went out as 101; next is 104 again, so 101 and 102 count as
+   recent.  A NACK for 101 is then answered with source packet 101 - the
+   packet that was deliberately withheld - instead of 102 ([rs_nack]). *)
+Theorem C03_resync_refuted :
+  ~ C03_same_without_sync_statement /\ ~ C03_withheld_without_sync_statement.
+Proof. exact resync_refuted. Qed.
+Print Assumptions C03_resync_refuted.
+
+Example C03_resync_witness :
+  snd (fst (nack1 true (frun true (f_init 8) rs_ops) 101))
+  = [WSent [128; 224; 0; 101; 0;0;0;1; 0;0;18;52; 128; 128; 128; 11; 7;7;101]] /\
+  ex_sent101 = [128; 224; 0; 101; 0;0;0;1; 0;0;18;52; 128; 128; 128; 11; 7;7;102].
+Proof. split; [exact rs_nack|reflexivity]. Qed.
